@@ -252,7 +252,9 @@ theorem frames_getTable (a : Nat) (rels : List RelID) : Frames (getTable a rels)
             · rfl
             · split
               · rfl
-              · exact getTable_go_any _ w (w.reframe o lg lk) rfl _
+              · split
+                · rfl
+                · exact getTable_go_any _ w (w.reframe o lg lk) rfl _
   rw [key]
   exact mapS_const_state hst fun s => s.reframe o lg lk
 
